@@ -290,6 +290,10 @@ example : ∃ s, Reachable 2 s ∧ s.main = .done ∧ s.finished = [7] := by
 example : (firstReject 2 (init 2) 0 [.submit 0, .lock 0, .recvJob 0, .start 0 0, .finish 0 0, .unlock 0]).2 = some 3 := by
   decide
 
+/-- the mutation "run a job twice" is not a behaviour of the model either -/
+example : (firstReject 1 (init 1) 0 [.submit 0, .lock 0, .recvJob 0, .unlock 0, .start 0 0, .finish 0 0, .start 0 0]).2 = some 6 := by
+  decide
+
 /-- the mutation "one `Terminate` too few" cannot complete `drop` in the model: the join of
     the first worker is not enabled after only `n - 1` sends -/
 example : (firstReject 2 (init 2) 0 [.dropBegin, .sendTerm, .lock 0, .recvTerm 0, .unlock 0, .exit 0, .joined 0]).2 = some 6 := by
